@@ -150,8 +150,8 @@ class C19 : public Check
 public:
     const char *id() { return "C19"; }
     const char *opName(int k) { return sName(k); }
-    int quickRuns() { return 10000; }
-    int quickSeconds() { return 60; }
+    int quickRuns() { return 60000; }
+    int quickSeconds() { return 90; }
     int thoroughSeconds() { return 900; }
     const char *rule()
     {
